@@ -146,4 +146,6 @@ def run(ck, ix, tier):
 
     # ------------------------------------------------------------ formatter interface (shared with C09)
     interface_rule(ck, ix)
+    from .C07 import token_conservation_rule
+    token_conservation_rule(ck, ix)
     return EXPLANATION
